@@ -151,3 +151,9 @@ Proof.
     intros k c H. destruct k as [|k]; simpl in H; [|destruct H].
     destruct H as [<-|[]]. vm_compute. auto.
 Qed.
+
+(* sm_mul_entry / sm_transpose_entry: the kernels on the example prolongator (P4^T P4, entry (1,2) = 2*0+3*1+1*3 = 6) *)
+Example ex_kernels :
+  sm_mul Z Z.add Z.mul (sm_transpose Z 4 P4) P4
+  = [[(0%N, 20%Z); (1%N, 4%Z)]; [(0%N, 4%Z); (1%N, 14%Z); (2%N, 6%Z)]; [(1%N, 6%Z); (2%N, 14%Z); (3%N, 4%Z)]; [(2%N, 4%Z); (3%N, 20%Z)]].
+Proof. vm_compute. reflexivity. Qed.
